@@ -713,7 +713,7 @@ func seedStream(seed int64, k int) []uint64 {
 }
 
 func (prop) Run(line string) core.Outcome {
-	if strings.HasPrefix(line, "prx ") || strings.HasPrefix(line, "key ") || strings.HasPrefix(line, "ck ") || strings.HasPrefix(line, "cf ") || strings.HasPrefix(line, "rp ") {
+	if strings.HasPrefix(line, "prx ") || strings.HasPrefix(line, "key ") || strings.HasPrefix(line, "ck ") || strings.HasPrefix(line, "cf ") || strings.HasPrefix(line, "rp ") || strings.HasPrefix(line, "tim ") {
 		var f []string
 		for _, p := range strings.Split(line, " ") {
 			if p != "" {
@@ -729,6 +729,8 @@ func (prop) Run(line string) core.Outcome {
 			return runCf(f)
 		case "rp":
 			return runRp(f)
+		case "tim":
+			return runTim(f)
 		}
 		return runCk(f)
 	}
